@@ -316,6 +316,25 @@ def _missing_helpers(crate_dir, unit):
                 continue
             found.append({"file": f, "path": path})
             break
+    if not found and p.returncode != 0:
+        # new TRAIT IMPLS for a struct/enum that is under extraction (e.g. a hand-written `impl PartialEq<X> for T` replacing a derive):
+        # pull in every top-level `impl <Trait> for T` of the unit's source files that is not part of the unit yet
+        types = set(it["path"].split()[-1] for it in unit["items"] if it["path"].split()[0] in ("struct", "enum"))
+        for f in sorted(set(it["file"] for it in unit["items"])):
+            try:
+                src, m = B.read_repo(f)
+            except Exception:
+                continue
+            for it in rc.items(src, m=m):
+                if it.kind != "impl" or it.cfg_test or " for " not in it.header:
+                    continue
+                ty = re.sub(r"<.*", "", it.header.split(" for ")[-1].split(" where ")[0]).strip()
+                path = rc.norm(it.header.split("{")[0]).strip()
+                trait = re.sub(r"<.*", "", it.header.split(" for ")[0].replace("impl", "", 1)).strip().split("::")[-1]
+                if trait in ("Debug", "Display", "Serialize", "Deserialize", "Error", "Drop"):
+                    continue      # formatting / serde impls are never needed by a contract and drag in crates the unit does not have
+                if ty in types and path not in have and not any(h.startswith(path + "/") or h == path for h in have):
+                    found.append({"file": f, "path": path})
     return found
 
 
